@@ -188,7 +188,10 @@ def run(ctx):
         adds, mcvs = [], []
 
         def s_add(ex_, st_, args, f, e, adds=adds):
-            adds.append((args[1], args[2]))
+            # what is appended: the object the source pointer designates (identified by the value it holds)
+            src = args[1]
+            held = st_.store.get((src[1], src[2])) if src[0] == "ptr" else None
+            adds.append((held, args[2]))
             return [(TOP, {})]
 
         def s_mcv(ex_, st_, args, f, e, mcvs=mcvs):
@@ -205,8 +208,8 @@ def run(ctx):
         good = bool(live) and mcvs == [("str", mcv)] and len(adds) == 2 and emitted == [1]
         if good:
             (p0, n0), (p1, n1) = adds
-            good = n0 == INT(8) and n1 == INT(4) and p0[0] == "ptr" and p1[0] == "ptr" and \
-                p0[1][2] == "value" and p1[1][2] == "type"
+            # called with type 7 and value 42: first the 8 bytes of the value, then the 4 bytes of the type
+            good = n0 == INT(8) and n1 == INT(4) and p0 == INT(42) and p1 == INT(7)
         ctx.check(good, "R17.2", "%s:emits-%s(value,type)" % (fname, mcv), fn.loc(),
                   "%s builds MCV %s with payload parts %s" % (fname, mcvs, [(str(a[0])[:40], a[1]) for a in adds]))
         d = decl.get(mcv)
